@@ -282,6 +282,32 @@ pub fn run(ctx: &Ctx) -> i32 {
             check_case(ctx, st, &cases[i].0, cases[i].1);
         });
     }
+    // one long test case without immediate repetitions except at a junction placed on / next to a size at which
+    // windows and chunks tend to end: a run that is too short for the thresholds must stay literal there too
+    {
+        let mut cases: Vec<(String, Settings)> = vec![];
+        let bounds: &[usize] = if ctx.thorough { &[64, 128, 256, 300, 512, 1000, 1024, 2048] } else { &[256, 1024] };
+        let th: [(u32, u32); 4] = [(2, 1), (1, 2), (3, 1), (2, 2)];
+        for (j, (name, _, _, _)) in gen::JUNCTIONS.iter().enumerate() {
+            let cls = if name.ends_with("digits") { DIGIT } else if name.ends_with("letters") { WORD } else if name.ends_with("blanks") { SPACE } else { 0 };
+            for (k, b) in bounds.iter().enumerate() {
+                for d in [-1isize, 0, 1] {
+                    if !ctx.thorough && *b > 512 && d != 0 && j > 1 {
+                        continue;
+                    }
+                    let (r, l) = th[(j + k + (d + 1) as usize) % th.len()];
+                    cases.push((gen::boundary_case(j, *b, d, 9 + j), Settings::with(REP | cls, r, l)));
+                    if j < 2 {
+                        cases.push((gen::boundary_case(j, *b, d, 9 + j), Settings::with(REP | cls, 2, 1)));
+                    }
+                }
+            }
+        }
+        par_for(&ctx.run, cases.len(), |i, st| {
+            st.count("junctions_at_window_sizes");
+            check_case(ctx, st, &[cases[i].0.clone()], cases[i].1);
+        });
+    }
     // thresholds set before conversion is enabled, with a build in between
     {
         let n = if ctx.thorough { 20_000 } else { 1_500 };
